@@ -16,7 +16,8 @@ CLAIMS = {
          "ARBITRARY state satisfying a representation invariant that every step re-establishes, inflight limit 1-3. Decides: no "
          "step drops a held publish, release or parked collision; a collision released by PUBACK or PUBCOMP is recorded as "
          "unacknowledged; solicited acks free exactly their slot. NOT decided: clean() with held publishes (crash points, replay "
-         "content) - CBMC > 48 GB - and the async EventLoop; MQTT 5 client.",
+         "content) - CBMC > 48 GB - and the async EventLoop. Thorough tier adds four MQTT 5 client steps (PUBACK success/failure, "
+         "PUBREC failure, PUBCOMP; 8-15 min and ~40 GB each) - the rest of the MQTT 5 state machine is outside.",
     design="DESIGN.md sections 0, 3, 5",
     technique="Kani/CBMC bounded model checking: inductive one-step harnesses over arbitrary invariant states of rumqttc::MqttState"),
  "C04": dict(
@@ -43,7 +44,8 @@ CLAIMS = {
          "allocation, an unacknowledged slot is never overwritten, inflight == held publishes + pending releases <= max under "
          "the event loop's admission guard (extracted from eventloop.rs on every run and compiled into the harness), a collision "
          "is parked not sent, pending only while its id is held, resolved and cleared by the freeing PUBACK/PUBCOMP, an ack "
-         "reopens the window. NOT decided: MQTT 5 (receive-maximum), the async loop itself.",
+         "reopens the window. Thorough tier: four MQTT 5 steps (failure reason codes free the slot/window and resolve a parked "
+         "collision). NOT decided: MQTT 5 receive-maximum, the remaining MQTT 5 steps, the async loop itself.",
     design="DESIGN.md sections 2.5, 3",
     technique="Kani/CBMC bounded model checking: inductive step harnesses + admission guard regenerated from source"),
  "C09": dict(
@@ -57,8 +59,8 @@ CLAIMS = {
     text="Same inductive step harnesses as C02 (labels C10): every received packet is surfaced first and exactly once; QoS1 -> "
          "PUBACK(id), QoS2 -> PUBREC(id), PUBREL of a known id -> PUBCOMP(id), none of them with manual_acks; unsolicited "
          "PUBACK/PUBREC/PUBCOMP/PUBREL (any id incl. 0, max+1, 65535) -> Err(Unsolicited) with bit-identical bookkeeping, no "
-         "panic; exactly one Outgoing announcement per returned packet and none without. NOT decided: Network::readb batching "
-         "(async), MQTT 5.",
+         "panic; exactly one Outgoing announcement per returned packet and none without. Thorough tier: four MQTT 5 steps. NOT "
+         "decided: Network::readb batching (async), the remaining MQTT 5 steps.",
     design="DESIGN.md section 3",
     technique="Kani/CBMC bounded model checking: inductive step harnesses over arbitrary invariant states"),
  "C11": dict(
